@@ -108,7 +108,7 @@ def one_case(ctx, alg, cfg, name, op, force_keysets=None):
         ctx.count('same_blades_other_key_order_followups')
     mode = rng.choice(['mixed', 'mixed', 'mixed', 'allsym', 'strings', 'shared', 'symnum', 'negpairs'])
     if mode == 'shared' and arity == 2:
-        keysets[1] = keysets[0] if rng.random() < 0.7 else gen.permuted(rng, keysets[0])
+        keysets[1] = keysets[0] if (graded or rng.random() < 0.7) else gen.permuted(rng, keysets[0])     # graded mode: canonical order only
     names = rng.sample(NAMES, sum(len(k) for k in keysets))
     sym_vals, num_vals, point = [], [], {}
     ni = 0
@@ -186,6 +186,8 @@ def one_case(ctx, alg, cfg, name, op, force_keysets=None):
         if stn == 'exc':
             ctx.note_raised(rn, op + '-numeric')
             ctx.count('numeric_pole_or_error_skipped')
+            if not isinstance(rn, ZeroDivisionError) and len(ctx.notes) < 6:
+                ctx.notes.append(f'numeric evaluation raised {type(rn).__name__}: {str(rn)[:160]} | {name} {op} keys {[list(k) for k in keysets]} values {[[str(v) for v in nv] for nv in num_vals]}')
         return
     sts, rs = ctx.guarded(to * 2, apply_op, *xs)
     if sts == 'timeout':
